@@ -144,6 +144,21 @@ Definition cur_end (f : dfile) : N :=
 Definition cur_seal (f : dfile) : N :=
   match df_pend f with None => df_seal f | Some b => pb_seal b end.
 
+(* process restart without power loss: what was written but never fsynced is still
+   in the page cache and is adopted by the next recovery.  From then on the model
+   treats it like synced content (the durability of such bytes across a LATER power
+   loss is not modelled: histories combining an I/O error, a restart and a power
+   loss are outside the theorems). *)
+Definition adopt_file (f : dfile) : dfile :=
+  match df_pend f with
+  | None => f
+  | Some b => {| df_ents := df_ents f ++ pb_ents b; df_end := pb_end b; df_seal := pb_seal b;
+                 df_pend := None; df_dir := df_dir f; df_size := df_size f |}
+  end.
+Definition adopt_disk (d : disk) : disk :=
+  {| dk_files := map (fun nf => (fst nf, adopt_file (snd nf))) (dk_files d);
+     dk_meta := dk_meta d; dk_stable := dk_stable d; dk_inited := dk_inited d |}.
+
 (* ------------------------------------------------------------------ *)
 (* crash: the adversary keeps or loses what is not durable              *)
 Record crash_choice := { cc_keep_file : list fname;     (* non-durable files that survive       *)
